@@ -114,6 +114,7 @@ def _do_transfer(  # noqa: C901
                 "directory '%s' contains missing files, skipping .dir file upload",
                 dir_hash,
             )
+            failed_ids.add(dir_obj.hash_info)
         elif _add(src, dest, [dir_obj.hash_info], **kwargs):
             failed_ids.add(dir_obj.hash_info)
         else:
